@@ -45,6 +45,40 @@ def step_to_db(prog, step):
     return db
 
 
+def nonmonotone_rels(prog):
+    """relations whose contents depend (transitively) on a negation or an aggregate: for them a missing tuple
+    upstream may show up as an extra tuple"""
+    nm = set()
+    changed = True
+
+    def has_negagg(items):
+        for it in items:
+            if isinstance(it, (Neg, Agg)):
+                return True
+            if isinstance(it, Disj) and any(has_negagg(a) for a in it.alts):
+                return True
+        return False
+
+    def reads(items):
+        out = set()
+        for it in items:
+            if isinstance(it, Clause):
+                out.add(it.rel)
+            elif isinstance(it, Disj):
+                for a in it.alts:
+                    out |= reads(a)
+        return out
+    while changed:
+        changed = False
+        for r in prog.rules:
+            if has_negagg(r.body) or (reads(r.body) & nm):
+                for h in r.heads:
+                    if h.rel not in nm:
+                        nm.add(h.rel)
+                        changed = True
+    return nm
+
+
 def to_base_terms(c, j, step):
     """variants with renamed relations / re-typed constants dump in their own terms: map back to the base program's"""
     back = getattr(j.variant, 'back', None)
@@ -179,6 +213,9 @@ def run_cases(ctx, cases, closure=True, check_inputs=True, extra_check=None, on_
                         witness['actual'] = {r: rows[:60] for r, rows in step['rels'].items()}
                         witness['summary'] = 'step %s (rep %d): %s' % (step['kind'], rep, json.dumps(diffs)[:300])
                         facts.update({'kind': 'diff', 'rels': sorted(set(d.get('rel', '?') for d in diffs)),
+                                      'n_extra_total': sum(d.get('n_extra', 0) for d in diffs),
+                                      'n_extra_in_monotone_rels': sum(d.get('n_extra', 0) for d in diffs if d.get('rel') not in nonmonotone_rels(prog)),
+                                      'n_missing_total': sum(d.get('n_missing', 0) for d in diffs),
                                       'step_index': k, 'diff_kinds': sorted(set(k2 for d in diffs for k2 in d if k2 != 'rel'))})
                         ctx.violation(j.id, witness, facts)
                         bad = True
